@@ -101,6 +101,13 @@ type Job struct {
 	// verdict that depends on the order in which flows are built shows as runs that
 	// disagree; "accepted" = some validator run accepted, "loads" = every load succeeded.
 	Repeat int `json:"repeat,omitempty"`
+	// PathParams: files of the path_params directory (file name -> YAML).
+	// ProcDefs: ADDITIONAL processor-definition files; when present the processors
+	// directory of this job is a copy of the registry plus these files.
+	PathParams map[string]string `json:"path_param_files,omitempty"`
+	ProcDefs   map[string]string `json:"processor_definition_files,omitempty"`
+	// GatewayPresent: write the gateway configuration file even when Gateway is "" (a zero-length file)
+	GatewayPresent bool `json:"gateway_config_present,omitempty"`
 }
 
 // JobResult as reassembled by the parent.
@@ -145,8 +152,7 @@ const maxKeptEvents = 400
 
 func setupEnv() {
 	zerolog.SetGlobalLevel(zerolog.Disabled)
-	environment.SetProcessorsDirectory(filepath.Join(repoDir(),
-		"proxy/src/services/lunar-engine/streams/processors/registry"))
+	environment.SetProcessorsDirectory(registryDir())
 	context_manager.Get().SetMockClock().WithFileExporter(discardExporter{})
 	verifhook.SetEvent(func(kind string, args ...string) {
 		if kind != "proc" || len(args) < 4 {
@@ -183,16 +189,57 @@ func writeFiles(base string, j *Job) error {
 		}
 	}
 	for n, y := range j.Flows {
-		if err := os.WriteFile(filepath.Join(base, "flows", n), []byte(y), 0o644); err != nil {
+		if err := os.WriteFile(filepath.Join(base, "flows", n), fileBytes(y), 0o644); err != nil {
 			return err
 		}
 	}
 	for n, y := range j.Quotas {
-		if err := os.WriteFile(filepath.Join(base, "quotas", n), []byte(y), 0o644); err != nil {
+		if err := os.WriteFile(filepath.Join(base, "quotas", n), fileBytes(y), 0o644); err != nil {
 			return err
 		}
 	}
+	for n, y := range j.PathParams {
+		if err := os.WriteFile(filepath.Join(base, "path_params", n), fileBytes(y), 0o644); err != nil {
+			return err
+		}
+	}
+	// processor definitions: the registry of the tree under test, or a copy of it
+	// with the job's additional files
+	if len(j.ProcDefs) == 0 {
+		environment.SetProcessorsDirectory(registryDir())
+		return nil
+	}
+	pd := filepath.Join(base, "processors")
+	if err := os.MkdirAll(pd, 0o755); err != nil {
+		return err
+	}
+	ents, err := os.ReadDir(registryDir())
+	if err != nil {
+		return err
+	}
+	for _, e := range ents {
+		if e.IsDir() {
+			continue
+		}
+		b, err := os.ReadFile(filepath.Join(registryDir(), e.Name()))
+		if err != nil {
+			return err
+		}
+		if err := os.WriteFile(filepath.Join(pd, e.Name()), b, 0o644); err != nil {
+			return err
+		}
+	}
+	for n, y := range j.ProcDefs {
+		if err := os.WriteFile(filepath.Join(pd, n), fileBytes(y), 0o644); err != nil {
+			return err
+		}
+	}
+	environment.SetProcessorsDirectory(pd)
 	return nil
+}
+
+func registryDir() string {
+	return filepath.Join(repoDir(), "proxy/src/services/lunar-engine/streams/processors/registry")
 }
 
 func guarded(f func() error) (err error, panicked bool, text string) {
@@ -256,9 +303,9 @@ func childMain(batchFile, resultFile string) {
 		if err := writeFiles(base, j); err != nil {
 			panic(err)
 		}
-		if j.Gateway != "" {
+		if j.Gateway != "" || j.GatewayPresent {
 			gw := filepath.Join(base, "gateway_config.yaml")
-			os.WriteFile(gw, []byte(j.Gateway), 0o644)
+			os.WriteFile(gw, fileBytes(j.Gateway), 0o644)
 			environment.SetGatewayConfigPath(gw)
 		} else {
 			environment.SetGatewayConfigPath("")
